@@ -272,7 +272,11 @@ class LfricInterp(Interp):
             return False
         content = [c for c in s.content if not isinstance(c, F.Comment)]
         head = content[0]
-        body = [c for c in s.content if c is not head and not isinstance(c, F.End_Do_Stmt)]
+        # fparser2 attaches the comments that precede a DO statement to the construct: directives first
+        lead = s.content[:s.content.index(head)]
+        for c in lead:
+            self._directive_comment(self, c.tostr() if hasattr(c, "tostr") else str(c), frame, g)
+        body = [c for c in s.content[len(lead):] if c is not head and not isinstance(c, F.End_Do_Stmt)]
         lc = head.items[-1] if isinstance(head.items[-1], F.Loop_Control) else head.items[1]
         if not isinstance(lc, F.Loop_Control) or lc.items[1] is None:
             raise Unsupported("loop control")
